@@ -666,8 +666,9 @@ func parseNumber(s []byte) (Object, error) {
 	}
 
 	// ParseFloat also accepts hexadecimal floating-point numbers like
-	// "0x1p-2", which are not numbers in PostScript.
-	if !bytes.ContainsAny(s, "xX") {
+	// "0x1p-2" and underscores between digits like "1_000", neither of
+	// which are numbers in PostScript.
+	if !bytes.ContainsAny(s, "xX_") {
 		y, err := strconv.ParseFloat(string(s), 64)
 		if err == strconv.ErrRange {
 			return nil, &postScriptError{eLimitcheck, fmt.Sprintf("number %q out of range", s)}
